@@ -16,6 +16,7 @@ props! {
     c04: C04: "C04",
     c05: C05: "C05",
     c06: C06: "C06",
+    c08: C08: "C08",
     c13: C13: "C13",
     c14: C14: "C14",
     c15: C15: "C15",
